@@ -16,7 +16,7 @@ def rnd(r, n):
     return bytes(r.getrandbits(8) for _ in range(n))
 
 
-def run_client(ver, key_arg, make_reply, timeout=6):
+def run_client(ver, key_arg, make_reply, timeout=10):
     """one client process against a one-shot responder. make_reply(request_bytes) -> datagram | None.
     returns dict(rc, stdout, stderr, request)"""
     sock = socket.socket(socket.AF_INET, socket.SOCK_DGRAM)
@@ -24,7 +24,7 @@ def run_client(ver, key_arg, make_reply, timeout=6):
     sock.settimeout(timeout)
     port = sock.getsockname()[1]
     args = [vlib.CLIENT_BIN, "127.0.0.1", str(port), "-p", "0" if ver == "Google" else "13", "-z", "-v",
-            "-f", "%s %f", "-t", "3"]
+            "-f", "%s %f", "-t", "5"]
     if key_arg:
         args += ["-k", key_arg]
     p = subprocess.Popen(args, stdout=subprocess.PIPE, stderr=subprocess.PIPE, text=True)
@@ -37,11 +37,145 @@ def run_client(ver, key_arg, make_reply, timeout=6):
     except socket.timeout:
         pass
     try:
-        out, err = p.communicate(timeout=timeout)
+        out, err = p.communicate(timeout=timeout + 6)
     except subprocess.TimeoutExpired:
         p.kill(); out, err = p.communicate()
     sock.close()
-    return {"rc": p.returncode, "stdout": out, "stderr": err, "request": req}
+    # the client's own receive timeout fired (exit 0, nothing printed): on a loaded machine the
+    # request or the reply was late. That observation says nothing about the response; the case
+    # is re-run serially by run_cases before it is judged.
+    timed_out = "Timeout waiting for response" in err or req is None
+    return {"rc": p.returncode, "stdout": out, "stderr": err, "request": req, "timed_out": timed_out}
+
+
+def run_client_multi(ver, key_arg, n, make_replies, timeout=12):
+    """one client process with -n <n> against a responder that collects the n requests (each from
+    its own source port) and answers them in the order the client sent them.
+    make_replies(list of requests) -> list of datagrams. returns dict(rc, stdout, stderr, requests, dgrams)"""
+    sock = socket.socket(socket.AF_INET, socket.SOCK_DGRAM)
+    sock.bind(("127.0.0.1", 0))
+    sock.settimeout(timeout)
+    port = sock.getsockname()[1]
+    args = [vlib.CLIENT_BIN, "127.0.0.1", str(port), "-p", "0" if ver == "Google" else "13", "-z", "-v",
+            "-f", "%s %f", "-t", "6", "-n", str(n)]
+    if key_arg:
+        args += ["-k", key_arg]
+    p = subprocess.Popen(args, stdout=subprocess.PIPE, stderr=subprocess.PIPE, text=True)
+    reqs, peers, dgrams = [], [], []
+    try:
+        for _ in range(n):
+            rq, peer = sock.recvfrom(65536)
+            reqs.append(rq); peers.append(peer)
+        dgrams = make_replies(reqs)
+        for d, peer in zip(dgrams, peers):
+            sock.sendto(d, peer)
+    except socket.timeout:
+        pass
+    try:
+        out, err = p.communicate(timeout=timeout + 8)
+    except subprocess.TimeoutExpired:
+        p.kill(); out, err = p.communicate()
+    sock.close()
+    timed_out = "Timeout waiting for response" in err or len(reqs) < n
+    return {"rc": p.returncode, "stdout": out, "stderr": err, "requests": reqs, "dgrams": dgrams, "timed_out": timed_out}
+
+
+def multi_runs(ctx, pid):
+    """-n N runs: genuine responses first, then (for C01) one that is unauthentic in a way that only
+    a client carrying state from the earlier responses of the run could miss; the per-response model
+    predicts every step (the client handles each response independently of the earlier ones)."""
+    r = ctx.rng
+    plans = []
+    for ver in ("Google", "RfcDraft13"):
+        unit = 10**6 if ver == "Google" else 1
+        midp = 1700000000 * unit + 77
+        kinds = ["all honest", "forged CERT.SIG after genuine", "forged MAXT after genuine", "forged MINT after genuine",
+                 "replay of response 1 for request 2", "response for request 1 sent to request 2's socket",
+                 "re-signed by another key after genuine", "window moved (validly signed) after genuine",
+                 "other online key, bad CERT.SIG after genuine"]
+        for ki, kind in enumerate(kinds if pid == "C01" else kinds[:1]):
+            for n in ((2, 3) if not ctx.thorough else (2, 3, 5, 9)):
+                def mk(reqs, ver=ver, kind=kind, midp=midp):
+                    batch = [(rq, nonce_of(ver, rq)) for rq in reqs]
+                    ds = [refserver.respond(ver, LT, OK1, batch, i, midp) for i in range(len(reqs))]
+                    j = len(reqs) - 1          # the last response is the bad one
+                    if kind == "forged CERT.SIG after genuine":
+                        g = refserver.parts(ver, ds[j]); b = bytearray(g["_cert"]["SIG"]); b[5] ^= 4
+                        g["_cert"]["SIG"] = bytes(b); ds[j] = refserver.rebuild(ver, g)
+                    elif kind == "forged MAXT after genuine":
+                        g = refserver.parts(ver, ds[j]); g["_dele"]["MAXT"] = struct.pack("<Q", midp - 1)
+                        ds[j] = refserver.rebuild(ver, g)
+                    elif kind == "forged MINT after genuine":
+                        g = refserver.parts(ver, ds[j]); g["_dele"]["MINT"] = struct.pack("<Q", 5)
+                        ds[j] = refserver.rebuild(ver, g)
+                    elif kind == "replay of response 1 for request 2":
+                        ds[j] = ds[0]
+                    elif kind == "response for request 1 sent to request 2's socket":
+                        ds[j] = refserver.respond(ver, LT, OK1, batch, 0, midp + 1)
+                    elif kind == "re-signed by another key after genuine":
+                        ds[j] = refserver.respond(ver, LT2, OK1, batch, j, midp)
+                    elif kind == "window moved (validly signed) after genuine":
+                        ds[j] = refserver.respond(ver, LT, OK1, batch, j, midp, mint=midp + 1)
+                    elif kind == "other online key, bad CERT.SIG after genuine":
+                        g = refserver.parts(ver, refserver.respond(ver, LT2, OK2, batch, j, midp))
+                        ds[j] = refserver.rebuild(ver, g)
+                    return ds
+                plans.append({"ver": ver, "kind": kind, "n": n, "mk": mk, "key": ("hex", "b64")[(ki + n) % 2] if pid == "C01" else ("none", "hex", "b64")[n % 3]})
+    results = [None] * len(plans)
+
+    def work(i):
+        c = plans[i]
+        ka = None if c["key"] == "none" else (LT_PK.hex() if c["key"] == "hex" else base64.b64encode(LT_PK).decode())
+        results[i] = run_client_multi(c["ver"], ka, c["n"], c["mk"])
+    with ThreadPoolExecutor(max_workers=8) as ex:
+        list(ex.map(work, range(len(plans))))
+    for attempt in range(3):
+        late = [i for i, res in enumerate(results) if res["timed_out"]]
+        for i in late:
+            work(i)
+    cases, owner = [], []
+    for ci, (c, res) in enumerate(zip(plans, results)):
+        for rq, d in zip(res["requests"], res["dgrams"]):
+            cases.append((c["ver"], LT_PK if c["key"] != "none" else None, nonce_of(c["ver"], rq), rq, d)); owner.append(ci)
+    preds, raw = model_predict(cases) if cases else ([], [])
+    for ci, (c, res) in enumerate(zip(plans, results)):
+        ctx.evaluations += 1
+        ctx.count("multi:%s:%s:n=%d" % (c["ver"], c["kind"], c["n"]))
+        mine = [k for k, o in enumerate(owner) if o == ci]
+        times = [l for l in res["stdout"].splitlines() if l and l[0].isdigit()]
+        rep = {"cmd": "client-multi", "ver": c["ver"], "kind": c["kind"], "n": c["n"], "key": c["key"], "rc": res["rc"],
+               "requests": [rt.hx(x) for x in res["requests"]], "dgrams": [rt.hx(x) for x in res["dgrams"]],
+               "stdout": res["stdout"][-400:], "stderr": res["stderr"][-600:]}
+        if res["timed_out"]:
+            ctx.violation("tie", "client -n %d timed out waiting although every response was sent, 4 attempts (%s)" % (c["n"], c["kind"]), rep); continue
+        auth = [py_authentic(c["ver"], LT_PK, cases[k][3], cases[k][2], cases[k][4]) for k in mine]
+        # the client stops (non-zero exit) at the first response it rejects
+        lead_model = 0
+        for k in mine:
+            if preds[k][0] == "OK":
+                lead_model += 1
+            else:
+                break
+        want_rc0 = lead_model == len(mine)
+        if c["key"] != "none":
+            lead_auth = 0
+            for a in auth:
+                if a:
+                    lead_auth += 1
+                else:
+                    break
+            if len(times) > lead_auth:
+                ctx.violation("property", "client -n %d printed %d times but response %d of the run is not authentic (%s)" % (c["n"], len(times), lead_auth + 1, c["kind"]), rep); continue
+            if lead_auth < len(mine) and res["rc"] == 0:
+                ctx.violation("property", "client -n %d exited 0 although response %d of the run is not authentic (%s)" % (c["n"], lead_auth + 1, c["kind"]), rep); continue
+            if pid == "C03" and (len(times) != len(mine) or res["rc"] != 0):
+                ctx.violation("property", "client -n %d rejected an honest response (%s)" % (c["n"], c["kind"]), rep); continue
+            if lead_auth < len(mine):
+                ctx.nontriv("multi:%s:%s:%d" % (c["ver"], c["kind"], c["n"]))
+        if len(times) != lead_model or (res["rc"] == 0) != want_rc0:
+            ctx.violation("tie", "model and client binary disagree on a -n %d run (%s): client printed %d times, rc=%d; model accepts the first %d of %d" % (c["n"], c["kind"], len(times), res["rc"], lead_model, len(mine)), rep)
+        else:
+            ctx.traces_validated += 1
 
 
 def observed(res):
@@ -194,6 +328,24 @@ def forgeries(r, ver, honest, request, nonce, earlier):
     gg = refserver.parts(ver, honest)
     gg["_cert"]["SIG"] = ed25519.sign(LT, refserver.CTX_DELE[other] + gg["_cert"]["DELE"])
     out.append(("CERT signed under the other protocol's context", refserver.rebuild(ver, gg)))
+    # validly signed by the pinned key's holder but semantically wrong: the midpoint just outside /
+    # exactly on the edge of the delegation window (with the usual and with a huge radius), the
+    # response signature made under the delegation context, the reply for the co-request
+    hp = refserver.parts(ver, honest)
+    midp = struct.unpack("<Q", hp["_srep"]["MIDP"])[0]
+    co = rt.mk_classic(rnd(r, 64)) if ver == "Google" else rt.mk_ietf(rnd(r, 32), 1024)
+    batch2 = [(co, nonce_of(ver, co)), (request, nonce)]
+    for nm, kw in (("signed: MINT = MIDP+1", dict(mint=midp + 1)),
+                   ("signed: MAXT = MIDP-1", dict(mint=0, maxt=midp - 1)),
+                   ("signed: MAXT = MIDP-1, RADI max", dict(mint=0, maxt=midp - 1, radi=2**32 - 1)),
+                   ("signed: MINT = MIDP+3, RADI 5", dict(mint=midp + 3, radi=5)),
+                   ("signed: window = [MIDP, MIDP] (authentic)", dict(mint=midp, maxt=midp)),
+                   ("signed: window = [MIDP, MIDP], RADI max (authentic)", dict(mint=midp, maxt=midp, radi=2**32 - 1))):
+        out.append((nm, refserver.respond(ver, LT, OK1, batch2, 1, midp, **kw)))
+    out.append(("signed reply for the co-request", refserver.respond(ver, LT, OK1, batch2, 0, midp)))
+    gs = refserver.parts(ver, honest)
+    gs["SIG"] = ed25519.sign(OK1, refserver.CTX_DELE[ver] + gs["SREP"])
+    out.append(("SREP signed under the delegation context", refserver.rebuild(ver, gs)))
     # replay of an earlier genuine response (for another request)
     for e in earlier[-2:]:
         out.append(("replay of an earlier genuine response", e))
@@ -229,6 +381,14 @@ def run_cases(ctx, pid, plan):
 
     with ThreadPoolExecutor(max_workers=vlib.NCPU) as ex:
         list(ex.map(work, range(len(plan))))
+    # inconclusive runs (client receive timeout under load) are repeated one at a time
+    for attempt in range(3):
+        late = [i for i, res in enumerate(results) if res.get("timed_out")]
+        if not late:
+            break
+        ctx.count("rerun-after-client-timeout", len(late))
+        for i in late:
+            work(i)
     return results
 
 
@@ -255,6 +415,10 @@ def judge(ctx, pid, plan, results):
                "stdout": res["stdout"][-300:], "stderr": res["stderr"][-400:]}
         if res["request"] is None:
             ctx.violation("tie", "client sent no request", rep); continue
+        if res.get("timed_out"):
+            # four attempts (one parallel, three serial) all ended in the client's receive timeout
+            # although the responder sent the datagram: the client is not processing it
+            ctx.violation("tie", "client binary timed out waiting although the response was sent, 4 attempts (%s); model predicts %s" % (label, pred), rep); continue
         if mkl != "OK " + rt.hx(req):
             ctx.violation("tie", "model's make_request differs from the request the client sent", dict(rep, mkreq=mkl[:300])); continue
         if not (len(req) == (1024 if ver == "Google" else 1036)):
@@ -332,6 +496,7 @@ def run_c01(ctx):
         plan.append({"ver": ver, "key": "hex", "pk": ed25519.secret_to_public(LT2), "maker": maker3})
     results = run_cases(ctx, "C01", plan)
     judge(ctx, "C01", plan, results)
+    multi_runs(ctx, "C01")
     proof_verdict(ctx)
 
 
@@ -367,6 +532,7 @@ def run_c03(ctx):
                 plan.append({"ver": ver, "key": key, "pk": LT_PK, "maker": maker, "want": want})
     results = run_cases(ctx, "C03", plan)
     judge(ctx, "C03", plan, results)
+    multi_runs(ctx, "C03")
     # ---- against the real server binary (its own clock): client -n N puts N requests in flight
     real_server_runs(ctx)
     proof_verdict(ctx)
